@@ -38,6 +38,8 @@ typedef struct {
 	size_t out_limit;         // microlzma
 	lzma_block block;         // EP_BLOCK*
 	bool lzma1ext; bool ext_known;
+	// flush script (c06enc): the input is fed in nflush+1 segments; segment k ends with flush_act[k]
+	unsigned nflush; size_t flush_at[4]; lzma_action flush_act[4];
 } rt_case;
 
 static uint64_t visit(int d, int v) { return lzma_verif_visit_counts[d][v]; }
@@ -130,6 +132,22 @@ static bool do_encode(rt_case *c, uint64_t idx, vbuf *out, size_t *consumed, cha
 	slice_plan p = c->enc_plan;
 	p.final_action = LZMA_FINISH;
 	p.timeout_coder = (c->ep == EP_STREAM_MT && c->timeout != 0);
+	if (c->nflush) {
+		size_t pos = 0;
+		for (unsigned k = 0; k < c->nflush; ++k) {
+			slice_plan q = p; q.final_action = c->flush_act[k]; q.seed = p.seed + k;
+			slicer_run(&strm, c->in.p + pos, c->flush_at[k] - pos, out, &q, &sr);
+			if (sr.protocol_violation) { snprintf(err, errsz, "encoder protocol (segment %u): %s", k, sr.why); lzma_end(&strm); return false; }
+			if (sr.ret != LZMA_STREAM_END || sr.total_in != c->flush_at[k] - pos) {
+				snprintf(err, errsz, "encoder %s: flush action %d after %zu input bytes ended with %s (segment consumed %" PRIu64 " of %zu)", ep_names[c->ep], (int)c->flush_act[k], c->flush_at[k], lzma_ret_name(sr.ret), sr.total_in, c->flush_at[k] - pos);
+				lzma_end(&strm); return false;
+			}
+			pos = c->flush_at[k];
+		}
+		p.seed += 7;
+		slicer_run(&strm, c->in.p + pos, c->in.n - pos, out, &p, &sr);
+		sr.total_in += pos;
+	} else
 	slicer_run(&strm, c->in.p, c->in.n, out, &p, &sr);
 	lzma_end(&strm);
 	if (sr.protocol_violation) { snprintf(err, errsz, "encoder protocol: %s", sr.why); return false; }
@@ -548,7 +566,33 @@ static void c06enc_case(uint64_t idx)
 	slice_plan whole = { .mode = SL_WHOLE, .final_action = LZMA_FINISH };
 	c.enc_plan = whole;
 	uint32_t thr0 = c.threads, to0 = c.timeout;
-	hx_sample("c06enc ep=%s cfg=%s kind=%s size=%zu threads=%u bs=%" PRIu64, ep_names[c.ep], c.cfg.desc, gd_names[c.kind], c.in.n, c.threads, c.block_size);
+	// a third of the cases carry a flush script: the same flush actions at the same input offsets in every run,
+	// only the slicing between them differs
+	c.nflush = 0;
+	char fdesc[120] = "";
+	if (vrng_chance(&r, 1, 3) && c.in.n > 0) {
+		bool sync_ok = true;
+		// LZMA_SYNC_FLUSH is honoured by LZMA2 and delta only (LZMA1 and the BCJ filters refuse it: C12's subject)
+		if (c.ep != EP_EASY)
+			for (unsigned i = 0; i < c.cfg.nfilters; ++i) {
+				lzma_vli id = c.cfg.filters[i].id;
+				if (id != LZMA_FILTER_LZMA2 && id != LZMA_FILTER_DELTA) sync_ok = false;
+			}
+		lzma_action acts[3]; unsigned na = 0;
+		if ((c.ep == EP_EASY || c.ep == EP_STREAM || c.ep == EP_RAW || c.ep == EP_BLOCK) && sync_ok) acts[na++] = LZMA_SYNC_FLUSH;
+		if (c.ep == EP_EASY || c.ep == EP_STREAM || c.ep == EP_STREAM_MT) { acts[na++] = LZMA_FULL_FLUSH; acts[na++] = LZMA_FULL_BARRIER; }
+		if (na) {
+			c.nflush = 1 + vrng_below(&r, 3);
+			size_t early = c.in.n < 6000 ? c.in.n : 6000;
+			for (unsigned k = 0; k < c.nflush; ++k) c.flush_at[k] = vrng_chance(&r, 3, 5) ? (size_t)vrng_below64(&r, early + 1) : (size_t)vrng_below64(&r, c.in.n + 1);
+			for (unsigned i = 0; i < c.nflush; ++i) for (unsigned j = i + 1; j < c.nflush; ++j) if (c.flush_at[j] < c.flush_at[i]) { size_t t = c.flush_at[i]; c.flush_at[i] = c.flush_at[j]; c.flush_at[j] = t; }
+			size_t w = 0;
+			for (unsigned k = 0; k < c.nflush; ++k) { c.flush_act[k] = acts[vrng_below(&r, na)]; if (acts[0] == LZMA_SYNC_FLUSH && vrng_chance(&r, 1, 2)) c.flush_act[k] = LZMA_SYNC_FLUSH; w += (size_t)snprintf(fdesc + w, sizeof(fdesc) - w, " %s@%zu", c.flush_act[k] == LZMA_SYNC_FLUSH ? "sync" : c.flush_act[k] == LZMA_FULL_FLUSH ? "full" : "barrier", c.flush_at[k]); }
+			hx_count("flush_script_cases", 1);
+			if (c.flush_at[0] < 4400) hx_count("flush_script_early", 1);
+		}
+	}
+	hx_sample("c06enc ep=%s cfg=%s kind=%s size=%zu threads=%u bs=%" PRIu64 "%s%s", ep_names[c.ep], c.cfg.desc, gd_names[c.kind], c.in.n, c.threads, c.block_size, fdesc[0] ? " flush:" : "", fdesc);
 	bool ok = do_encode(&c, idx, &canon, &consumed, err, sizeof(err));
 	hx_eval();
 	if (!ok) { snprintf(key, sizeof(key), "encode-failed|%s", ep_names[c.ep]); hx_violation("C06", key, idx, "%s; cfg=%s size=%zu", err, c.cfg.desc, c.in.n); goto done; }
@@ -568,8 +612,8 @@ static void c06enc_case(uint64_t idx)
 		if (other.n != canon.n || (canon.n && memcmp(other.p, canon.p, canon.n))) {
 			size_t at = 0; while (at < other.n && at < canon.n && other.p[at] == canon.p[at]) ++at;
 			snprintf(key, sizeof(key), "encoder-nondeterministic|%s|%s", ep_names[c.ep], (c.ep == EP_STREAM_MT && (c.threads != thr0 || c.timeout != to0)) ? "threads-or-timeout" : "slicing");
-			hx_violation("C06", key, idx, "output differs from canonical at byte %zu (%zu vs %zu bytes): slicing %s/%zu/%zu threads=%u (canonical %u) timeout=%u (canonical %u); cfg=%s size=%zu bs=%" PRIu64,
-					at, other.n, canon.n, slice_mode_name(c.enc_plan.mode), c.enc_plan.max_in, c.enc_plan.max_out, c.threads, thr0, c.timeout, to0, c.cfg.desc, c.in.n, c.block_size);
+			hx_violation("C06", key, idx, "output differs from canonical at byte %zu (%zu vs %zu bytes): slicing %s/%zu/%zu threads=%u (canonical %u) timeout=%u (canonical %u); cfg=%s size=%zu bs=%" PRIu64 " flush script:%s",
+					at, other.n, canon.n, slice_mode_name(c.enc_plan.mode), c.enc_plan.max_in, c.enc_plan.max_out, c.threads, thr0, c.timeout, to0, c.cfg.desc, c.in.n, c.block_size, fdesc[0] ? fdesc : " none");
 			goto done;
 		}
 	}
